@@ -14,8 +14,8 @@ from vf import real
 from vf.contracts.common import Agg
 from vf.report import Result
 
-LEVEL = "proof"
-EXPLANATION = ("transform(fit matrix) = scores discharged for EOF/ComplexEOF, the CPCCA family core and the EOF rotators "
+LEVEL = "other"
+EXPLANATION = ("contracts: part proved, part bounded. transform(fit matrix) = scores discharged for EOF/ComplexEOF, the CPCCA family core and the EOF rotators "
                "(all powers, sorted and unsorted state) at the level of the 2-d algorithms; the preprocessing plumbing around "
                "them, SparsePCA, POP, the cross-set rotators and multi.CCA are evaluated on real models (bounded)")
 
